@@ -210,6 +210,15 @@ def geometry_positions(rng, tier):
     return [f for f, _, _ in legal]
 
 
+def hypothesis_obligation(o):
+    """the theorems of C01/C02/C13 assume pos_ok1; its executable tests must hold on every legal position explored"""
+    for f, h in gens.HYP["failed"][:3]:
+        o.violation("proof", "the hypothesis of the move-generation theorems (pos_ok1b/rep_legalb = %s) fails on the legal position %s" % (h, f),
+                    {"theorem": "C01_generated_moves_exactly_legal (hypothesis pos_ok1)", "fen": f, "tests": h})
+    o.oblige("hypothesis of the theorems (extracted pos_ok1b and rep_legalb) holds on all %d legal positions loaded by from_fen in this run" % gens.HYP["checked"],
+             not gens.HYP["failed"])
+
+
 @prop("C01", "C01.v", THEOREMS["C01"])
 def run_c01(o, tier, rng, prep):
     corpus = [l.strip() for l in open(os.path.join(V.VERIF, "corpus", "c01_regress.txt")) if l.strip() and not l.startswith("#")]
@@ -255,6 +264,7 @@ def run_c01(o, tier, rng, prep):
         # C01 is about the move set: descriptors as sorted multisets (positions and keys are C02 / C05)
         mm, sm = V.compare(res, model_filter=model_moves_only, spec_filter=moves_only)
         report(o, name, res, mm, sm, nontrivial=moves_nontrivial)
+    hypothesis_obligation(o)
     o.rule = "legal positions (accepted by the specification's legal_position): regression corpus, enumerated castling geometry (4 castling kinds x 6 enemy kinds incl. king x every square, blockers), en-passant pins/evasions, promotions incl. corner captures, and every prefix of random legal games generated by the specification; non-trivial = castling, promotion or en passant available, or the mover in check"
 
 
@@ -282,6 +292,7 @@ def run_c02(o, tier, rng, prep):
     res = V.run_cases(cases)
     mm, sm = V.compare(res, model_filter=rec_no_key_no_hint, spec_filter=no_key)
     report(o, "successor records along chains of generated successors", res, mm, sm, nontrivial=moves_nontrivial)
+    hypothesis_obligation(o)
     o.rule = "chains of 0-3 generated successors (so inherited fields are exercised) from prefixes of specification-generated games and geometry families; every successor's full record, descriptor and printed bestmove text compared; non-trivial as for C01"
 
 
@@ -307,6 +318,7 @@ def run_c13(o, tier, rng, prep):
     mm, sm = V.compare(res, model_filter=rec_no_key_no_hint, spec_filter=no_key)
     report(o, "capture-only generation along capture chains", res, mm, sm,
            nontrivial=lambda r: "moves=" in (r.get("S") or "") and not (r.get("S") or "").endswith("moves="))
+    hypothesis_obligation(o)
     o.rule = "capture-only generation at every prefix of capture chains (0-6 plies, followed through capture-only generation as quiescence does) from game positions and en-passant/promotion geometry; non-trivial = at least one legal capture"
 
 
